@@ -10,6 +10,7 @@ import Driver.Serve
 import Driver.Media
 import Driver.Lexer
 import Driver.TagParser
+import Driver.Resolve
 open Lean
 
 def dispatch (j : Json) : Except String Json := do
@@ -32,6 +33,8 @@ def dispatch (j : Json) : Except String Json := do
   | "mediaattr" => Driver.MediaD.handleAttr j
   | "lex" => Driver.LexerD.handle j
   | "parsetag" => Driver.TagParserD.handle j
+  | "leaves" => Driver.ResolveD.handleLeaves j
+  | "resolve" => Driver.ResolveD.handleResolve j
   | "ping" => pure (Json.mkObj [("pong", Json.bool true)])
   | _ => throw s!"unknown op {op}"
 
